@@ -176,7 +176,7 @@ impl PoolAllocator {
         let adjusted_start = align(ptr.as_ptr() as usize, bucket_layout.align());
         let bucket_size = align(bucket_layout.size(), bucket_layout.align());
 
-        (ptr.as_ptr() as usize + size - adjusted_start) / bucket_size
+        (ptr.as_ptr() as usize + size).saturating_sub(adjusted_start) / bucket_size
     }
 
     fn verify_ptr_is_managed_by_allocator(&self, ptr: NonNull<u8>) {
